@@ -153,6 +153,7 @@ class T:
         if inc is not None:       # C08 for G, leafwise: NoChange-tagged leaves of the retdiff equal the previous return value's
             inc.link(rd)
             c.assume(inc.hu(self.tr_retval(tr), self.d_primal(rd), self.d_tangent(rd)))
+        self.c06_for_callee(I, g, tr, request, rq, new_args, t2, w)
         ci_update = I.repo.resolve_qual(GF + ":Update")[1]
         bwd = UVal(bw, "EditRequest")
         if isinstance(request, Obj) and request.cls.name == "Update":
@@ -162,6 +163,48 @@ class T:
             # an empty update with unchanged arguments is the identity (C38/C08 for G)
             # C06 for G: applying the backward request with the original arguments restores the trace
         return (UVal(t2, "Trace"), SReal(w), UVal(rd, "retdiff"), bwd)
+
+    def c06_for_callee(self, I, g, tr, request, rq, ad, t2, w):
+        """C06 assumed of the abstract callee, instantiated lazily (no quantifier): when G.edit is applied to a trace that is
+        syntactically the result  t1 = gf_edit_tr(G, k0, t0, r0, ad0)  of an earlier G.edit, with the backward request of THAT
+        edit (gf_edit_bwd(G, k0, t0, r0, ad0), possibly as Update(update_bwd_constraint(.)), possibly under if-then-else), and
+        the argdiffs lead back to t0's arguments, the result has t0's view (choices, score, return value, arguments) and the
+        weight is the negation of the first edit's weight.  The same clause is PROVED of every class (C06 obligations)."""
+        def alternatives(e, cond):
+            e = z3.simplify(e)
+            if z3.is_app(e) and e.decl().kind() == z3.Z3_OP_ITE:
+                c_, x, y = e.children()
+                yield from alternatives(x, z3.And(cond, c_))
+                yield from alternatives(y, z3.And(cond, z3.Not(c_)))
+            else:
+                yield e, cond
+        for tr_alt, tr_cond in alternatives(tr, z3.BoolVal(True)):
+            if z3.is_app(tr_alt) and tr_alt.decl().name() == "gf_edit_tr" and tr_alt.num_args() == 5 and tr_alt.arg(0).eq(g.t):
+                self._c06_instance(I, tr_alt, tr_cond, request, rq, ad, t2, w, alternatives)
+
+    def _c06_instance(self, I, tr, tr_cond, request, rq, ad, t2, w, alternatives):
+        a = [tr.arg(j) for j in range(5)]
+        want = self.edit_bwd(*a)
+        ubc = self.c.fn("update_bwd_constraint", U, U)
+        cands = []
+        if isinstance(request, Obj) and request.cls.name == "Update" and isinstance(request.fields.get("constraint"), UVal):
+            for e, cond in alternatives(request.fields["constraint"].t, z3.BoolVal(True)):
+                if e.eq(ubc(want)):
+                    cands.append(cond)
+        else:
+            for e, cond in alternatives(rq, z3.BoolVal(True)):
+                if e.eq(want):
+                    cands.append(cond)
+        if not cands:
+            return
+        t0 = a[2]
+        w0 = self.edit_w(*a)
+        back = ad == self.tr_args(t0)          # `ad` here: the primal of the argdiffs (the new arguments)
+        restored = z3.And(self.tr_choices(t2) == self.tr_choices(t0), self.tr_score(t2) == self.tr_score(t0),
+                          self.tr_retval(t2) == self.tr_retval(t0), w == -w0)
+        self.c.assume(z3.Implies(z3.And(tr_cond, z3.Or(cands), back), restored))
+        _note("C06 for the abstract callee G (assume-guarantee, instantiated lazily): applying an edit's backward request to its "
+              "result with argdiffs leading back to the original arguments restores the original view with weight -w")
 
     # ------------------------------------------------------------------ Diff on partly opaque trees
     def primal_u(self, v):
